@@ -24,15 +24,17 @@ func (f *InjectedFault) Error() string {
 type faultKind int
 
 const (
-	fkNone      faultKind = iota
-	fkErr                 // probe returns (nil, fault) / fault
-	fkBlockPre            // pb fails before running its block
-	fkBlockPost           // pb fails after running its block
-	fkWrongKind           // pv/PM return a value of a kind the consumer rejects
+	fkNone          faultKind = iota
+	fkErr                     // probe returns (nil, fault) / fault
+	fkBlockPre                // pb fails before running its block
+	fkBlockPost               // pb fails after running its block
+	fkWrongKind               // pv/PM return a value of a kind the consumer rejects
+	fkErrTyped                // like fkErr, but the error value is a *plush.ErrUnknownIdentifier (a failing helper is not an unknown identifier, whatever its error's type)
+	fkErrWrapsTyped           // like fkErr, but the error wraps a *plush.ErrUnknownIdentifier
 )
 
 func (k faultKind) String() string {
-	return [...]string{"none", "err", "block-pre", "block-post", "wrong-kind"}[k]
+	return [...]string{"none", "err", "block-pre", "block-post", "wrong-kind", "err-typed-unknown-identifier", "err-wraps-unknown-identifier"}[k]
 }
 
 // Invocation is one dynamic probe call.
@@ -52,7 +54,7 @@ type Runtime struct {
 	Log     []Invocation
 	FailAt  int // 1-based invocation number that fails, 0 = none
 	Kind    faultKind
-	Fault   *InjectedFault
+	Fault   error
 	Fired   bool
 	FiredK  probeKind
 	FiredI  Invocation
@@ -71,7 +73,14 @@ func (rt *Runtime) enter(id int, name string, k probeKind) bool {
 		rt.Fired = true
 		rt.FiredK = k
 		rt.FiredI = inv
-		rt.Fault = &InjectedFault{Seq: inv.Seq, ID: id}
+		switch rt.Kind {
+		case fkErrTyped:
+			rt.Fault = &plush.ErrUnknownIdentifier{ID: fmt.Sprintf("injected-%d", id), Err: fmt.Errorf("injected fault at probe %d (invocation %d)", id, inv.Seq)}
+		case fkErrWrapsTyped:
+			rt.Fault = fmt.Errorf("injected fault at probe %d (invocation %d): %w", id, inv.Seq, &plush.ErrUnknownIdentifier{ID: "inner"})
+		default:
+			rt.Fault = &InjectedFault{Seq: inv.Seq, ID: id}
+		}
 		return true
 	}
 	return false
